@@ -9,13 +9,13 @@ import configuration as r_conf
 
 RULE = ('a grammar over the documented keys produces dictionaries with 1-3 connections; starting from a valid one, 0-3 values at connection, auth and protect '
         'level are replaced by: another valid value, missing, wrong type (None, int, float, bool, str, list, dict), out of range, unknown name, IPv6, '
-        'listening / non-listening / loopback / IPv4-mapped local address; a quarter of the dictionaries share list / dict objects between connections as YAML anchors and merge keys do; every odd / unknown value of every key is also applied once as the only change; a third of the PSKs look like another notation for octets or another YAML type (0x..., base64:, None, true, quoted, control characters), an eighth of the dictionaries use numbers / booleans / null as connection names. Oracles: (1) Configuration(...) either returns or raises ConfigurationError (subclass), never '
+        'listening / non-listening / loopback / IPv4-mapped local address; a quarter of the dictionaries share list / dict objects between connections as YAML anchors and merge keys do; every odd / unknown value of every key is also applied once as the only change; a third of the PSKs look like another notation for octets or another YAML type (0x..., base64:, None, true, quoted, control characters), an eighth of the dictionaries use numbers / booleans / null as connection names; a seventh give my_addr / peer_addr as host names of a scripted resolver (A + AAAA, several A records, names that do not exist). Oracles: (1) Configuration(...) either returns or raises ConfigurationError (subclass), never '
         'anything else; (2) when it returns and the independent reader of the documentation can say what the dictionary means, every connection is keyed by '
         '(local, peer) address and equals the reference: IKE transforms (type, id, key length) in listed order with the documented defaults, per protect entry '
         'protocol, ESP/AH transform list (no ENCR for AH, NO_ESN last), selectors as address / port ranges, IP protocol, mode, lifetime, index when given, '
         'IKE lifetime, DPD interval, identities (type and data), PSK octets, key presence; (3) a dictionary the reference says MUST be rejected '
         '(non-listening local address, unknown names, wrong list types, missing mandatory keys) is rejected. distinct = (mutated keys, kinds, outcome).')
-ASSUMPTIONS = ['numeric addresses only (no resolver in the sandbox)',
+ASSUMPTIONS = ['host names are resolved by a scripted getaddrinfo (12 names, several with more than one address; the sandbox has no DNS); the documented meaning of a name is the FIRST answer',
                'where the documentation is silent (port 70000, negative lifetime) the value must simply be stored as given']
 SHARDS = {'quick': 8, 'thorough': 16}
 TIMEOUT = {'quick': 600, 'thorough': 3400}
@@ -207,6 +207,55 @@ def compare(ck, loaded, want, case):
                 bad('random-index-range', p.index, '0..2^20')
 
 
+# scripted resolver: name -> addresses in order of preference. Several names have more than one address (AAAA before A, several A records): the FIRST answer
+# is the address of the connection, and a local name is only acceptable when that first address is listened on
+HOSTS = {'gw4.example': ['192.0.2.1'], 'gw-dual-v6-first.example': ['2001:db8::1', '192.0.2.1'], 'gw-dual-unlistened-first.example': ['2001:db8::99', '192.0.2.1'],
+         'gw-two-a.example': ['198.51.100.7', '192.0.2.1'], 'gw-two-a-unlistened-first.example': ['203.0.113.5', '198.51.100.7'],
+         'peer-dual.example': ['2001:db8::42', '192.0.2.42'], 'peer-dual-v4-first.example': ['192.0.2.43', '2001:db8::43'],
+         'peer-three-a.example': ['192.0.2.50', '192.0.2.51', '192.0.2.52'], 'peer-four.example': ['2001:db8::60', '192.0.2.60', '2001:db8::61', '192.0.2.61'],
+         'peer-single.example': ['192.0.2.70'], 'peer-two-v6.example': ['2001:db8::80', '2001:db8::81'], 'peer-zz.example': ['192.0.2.91', '192.0.2.90']}
+
+
+class _Resolver:
+    """Stands in for the `socket` module inside configuration.py: getaddrinfo answers from HOSTS (each address once per socket type, as the real one does),
+    numeric literals go to the real resolver code, anything else does not exist."""
+
+    def __init__(self):
+        import socket as real
+        self.real = real
+
+    def __getattr__(self, name):
+        return getattr(self.real, name)
+
+    def getaddrinfo(self, host, port, *a, **k):
+        real = self.real
+        if isinstance(host, str) and host in HOSTS:
+            out = []
+            for ad in HOSTS[host]:
+                fam = real.AF_INET6 if ':' in ad else real.AF_INET
+                for st, pr in ((real.SOCK_STREAM, 6), (real.SOCK_DGRAM, 17), (real.SOCK_RAW, 0)):
+                    out.append((fam, st, pr, '', (ad, 0) if fam == real.AF_INET else (ad, 0, 0, 0)))
+            return out
+        if isinstance(host, str) and host.endswith('.example'):
+            raise real.gaierror(-2, 'Name or service not known')
+        return real.getaddrinfo(host, port, *a, **k)
+
+
+def use_host_names(rng, conf):
+    """Replace the numeric my_addr / peer_addr of some connections by scripted host names."""
+    done = []
+    for c_ in conf.values():
+        if not isinstance(c_, dict):
+            continue
+        if rng.random() < 0.5:
+            c_['my_addr'] = rng.choice([h for h in HOSTS if h.startswith('gw')] + ['gw-unknown.example'])
+            done.append(('host-name', c_['my_addr']))
+        if rng.random() < 0.6:
+            c_['peer_addr'] = rng.choice([h for h in HOSTS if h.startswith('peer')] + ['peer-unknown.example'])
+            done.append(('host-name', c_['peer_addr']))
+    return done
+
+
 def share_objects(rng, conf):
     """What a YAML anchor / merge key (`protect: *p`, `<<: *base`) or a program filling connections from one template produces: the SAME list / dict object
     reachable from several connections. The meaning of the dictionary is unchanged."""
@@ -249,6 +298,8 @@ def systematic(rng):
 
 
 def run(ck):
+    r_conf.socket = _Resolver()
+    refconf.RESOLVER = HOSTS
     rng = ck.rng('c19', ck.shard[0])
     N = 6000 if not ck.thorough() else 1200000
     listen = [ipaddress.ip_address(a) for a in LISTEN]
@@ -277,8 +328,13 @@ def run(ck):
                 labels = rng.sample([1, 2024, 0, -1, True, False, None, 3.5, ('a', 1), '', 'backup'], len(conf))
                 conf = {lab: c_ for lab, c_ in zip(labels, conf.values())}
                 ck.count('names.not_all_text')
+            named = use_host_names(rng, conf) if rng.random() < 0.15 else []
+            for _n in named:
+                ck.count('names.host_names_used')
+                ck.seen('names.hosts', _n[1])
             shared = share_objects(rng, conf) if rng.random() < 0.25 else None
             muts = mutate(rng, conf) if i % 5 else []
+            muts = muts + [('conn.host-name', 'scripted-resolver')] * bool(named)
             if shared:
                 muts = muts + [('shared-objects', shared)]
                 ck.count(f'shared.{shared}')
@@ -332,6 +388,8 @@ def verdict(ck):
     ck.floor('dictionaries with objects shared between connections (YAML anchors)', sum(v for k, v in c.items() if k.startswith('shared.')), 300)
     ck.floor('systematic single-value cases', c['systematic.cases'], 60)
     ck.floor('dictionaries whose connection names are not all text', c['names.not_all_text'], 300)
+    ck.floor('addresses given as host names of the scripted resolver', c['names.host_names_used'], 400)
+    ck.floor('distinct host names used', len(ck.sets['names.hosts']), 12)
     ck.floor('distinct mutated keys', len([k for k in c if k.startswith('mutated.')]), 25)
     ck.floor('every mutated key >= 20 times', min([v for k, v in c.items() if k.startswith('mutated.') and k.count('.') == 2] or [0]), 20)
     return None
